@@ -88,12 +88,18 @@ TNew ==
   /\ New(e.c)
   /\ l' = l + 1 /\ dead' = {} /\ drv' = e.drv /\ lastPb' = <<8192, 0>> /\ snap' = <<>>
 
+\* the byte completes a control change on the listened channel whose number C18 does not name: whatever
+\* it changes is (also) a deviation from C18's "no other controller number changes anything"
+OtherCC == /\ rs >= 176 /\ rs <= 191 /\ rs % 16 = chan /\ d1 # -1 /\ e.b < 128
+           /\ d1 \notin {1, 7, 71, 74, 5, 65, 64, 121, 123}
+OwnCC(tags) == IF tags # {} /\ OtherCC THEN tags \cup {<<"C18", "other-controller-changes-something">>} ELSE tags
+
 TByte ==
   /\ e.op = "b"
   /\ Byte(e.b)
   /\ drv' = drv /\ snap' = snap
   /\ lastPb' = IF e.o[4] = NaNKey THEN lastPb ELSE <<pb', e.o[4]>>
-  /\ Advance(Own(ObsTags(e.o)))
+  /\ Advance(OwnCC(Own(ObsTags(e.o))))
 
 TPollR ==
   /\ e.op = "pr"
